@@ -11,6 +11,7 @@ CONSTANTS
  DevNoCap = FALSE
  DevHealthNotChecked <- None
  DevDegradedPasses = FALSE
+ DevGateHoisted = FALSE
 INIT TInit
 NEXT TNext
 POSTCONDITION Reached
